@@ -219,6 +219,28 @@ func runC07(c *core.Ctx) {
 			if err != nil || [32]byte(h2) != sha256.Sum256(idb) || h2 != h {
 				c.Violate("router_info.RouterInfo.IdentHash", "hash-changes-with-callers-buffer", sh, ib, fmt.Sprintf("IdentHash() %x before, %x after the input buffer was reused; SHA-256(identity bytes) = %x", h, h2, sha256.Sum256(idb)))
 			}
+			// ... and it is a function of the identity as it is NOW: after hashes have been asked for,
+			// the identity is changed in place through its exported fields (a padding byte; or the whole
+			// KeysAndCert replaced by another identity's); hash and bytes must still agree
+			if id := pi.RouterIdentity(); id != nil && id.KeysAndCert != nil {
+				what := "padding byte flipped"
+				if len(id.Padding) > 0 && r.Chance(2, 3) {
+					id.Padding[r.Pick(len(id.Padding))] ^= byte(1 + r.Pick(255))
+				} else {
+					other, _ := gen.KACOf(r, sig, cr)
+					if o2, _, err := router_identity.ReadRouterIdentity(other.Encode()); err == nil && o2 != nil {
+						id.KeysAndCert = o2.KeysAndCert
+						what = "KeysAndCert replaced"
+					}
+				}
+				nb, e1 := id.Bytes()
+				h3, e2 := pi.IdentHash()
+				if e1 == nil && e2 == nil && [32]byte(h3) != sha256.Sum256(nb) {
+					c.Violate("router_info.RouterInfo.IdentHash", "hash-not-sha256-of-bytes", gen.Shape{"sig": sig, "crypto": cr, "class": "identity changed in place after a first IdentHash: " + what}, ib,
+						fmt.Sprintf("IdentHash()=%x, SHA-256 of the identity's current bytes=%x", h3, sha256.Sum256(nb)))
+				}
+				c.Bucket("identhash-after-in-place-change")
+			}
 		}
 	})
 
